@@ -41,7 +41,11 @@ Section Statements.
 
   (* PUT (Init, SendChunk*, Close) for ANY chunking: what is stored is the submitted object with
      the concatenated chunks as payload, and stored_ok = id_ok /\ size_ok /\ checksum_ok /\
-     format_ok /\ (not EC -> auth_ok) *)
+     content_ok (system objects: LINK has a non-empty, parsing payload accepted by the split
+     verifier; TOMBSTONE / LOCK have none, a tombstone is accepted by the tombstone verifier;
+     required whatever the payload length) /\ (EC part -> ec_parent_auth: the parent header it
+     carries has ID = H(parent header) and an authenticating signature) /\ format_ok /\
+     (not EC -> auth_ok) *)
   Theorem C24_stored_implies_valid : forall e o chunks fail o' pl,
     o_payload o = [] ->
     run_put e o chunks fail = (OOk, Some (o', pl)) ->
